@@ -164,6 +164,11 @@ class SimulationControl:
             for event in initial_events:
                 self._sim._event_heap.push(event)
 
+        # Re-prime the fault schedule (the constructor primed it too)
+        if self._sim._fault_schedule is not None:
+            for event in self._sim._fault_schedule.start(self._sim._start_time, self._sim):
+                self._sim._event_heap.push(event)
+
         # Replay events that were scheduled before the first run()
         self._sim._replay_pre_run_events()
 
